@@ -2,3 +2,4 @@ CONSTANTS
   Widths = {1023, 1024, 1025, 2049, 2600}
   Shorts = {1, 3}
   Part = "tall"
+  SweepVals = {}
